@@ -268,6 +268,98 @@ impl std::io::Write for ScriptIo {
     }
 }
 
+/// A sequence of direct `Encoder` method calls, packaged as a value so that the whole sink battery
+/// applies to it.
+#[derive(Debug, Clone)]
+enum Op {
+    U8(u8),
+    U64(u64),
+    I64(i64),
+    Array(u64),
+    Map(u64),
+    Tag(u64),
+    Bytes(usize),
+    Str(usize),
+    BeginArray,
+    BeginMap,
+    BeginBytes,
+    BeginStr,
+    End,
+    Null,
+    Undefined,
+    Bool(bool),
+    Simple(u8),
+    F32(f32),
+    F64(f64),
+    Char(char),
+}
+
+struct Script(Vec<Op>);
+
+impl Script {
+    fn gen(rng: &mut Rng) -> Self {
+        let n = 1 + rng.below(5);
+        let lens = [0usize, 1, 2, 23, 24, 30];
+        Script(
+            (0..n)
+                .map(|_| match rng.below(20) {
+                    0 => Op::U8(vcore::gen::gen_int(rng, 8, false) as u8),
+                    1 => Op::U64(vcore::gen::gen_u64(rng)),
+                    2 => Op::I64(vcore::gen::gen_int(rng, 64, true) as i64),
+                    3 => Op::Array(vcore::gen::gen_u64(rng)),
+                    4 => Op::Map(vcore::gen::gen_u64(rng)),
+                    5 => Op::Tag(vcore::gen::gen_u64(rng)),
+                    6 => Op::Bytes(*rng.pick(&lens)),
+                    7 => Op::Str(*rng.pick(&lens)),
+                    8 => Op::BeginArray,
+                    9 => Op::BeginMap,
+                    10 => Op::BeginBytes,
+                    11 => Op::BeginStr,
+                    12 => Op::End,
+                    13 => Op::Null,
+                    14 => Op::Undefined,
+                    15 => Op::Bool(rng.bool()),
+                    16 => Op::Simple(*rng.pick(&[0u8, 19, 32, 255])),
+                    17 => Op::F32(f32::from_bits(rng.next_u32())),
+                    18 => Op::F64(f64::from_bits(rng.next_u64())),
+                    _ => Op::Char(*rng.pick(&['a', 'é', '€', '😀'])),
+                })
+                .collect(),
+        )
+    }
+}
+
+impl<C> Encode<C> for Script {
+    fn encode<W: Write>(&self, e: &mut Encoder<W>, _: &mut C) -> Result<(), minicbor::encode::Error<W::Error>> {
+        const TEXT: &str = "abcdefghijklmnopqrstuvwxyzabcdefghij";
+        for op in &self.0 {
+            match op {
+                Op::U8(x) => e.u8(*x)?,
+                Op::U64(x) => e.u64(*x)?,
+                Op::I64(x) => e.i64(*x)?,
+                Op::Array(n) => e.array(*n)?,
+                Op::Map(n) => e.map(*n)?,
+                Op::Tag(n) => e.tag(minicbor::data::Tag::new(*n))?,
+                Op::Bytes(n) => e.bytes(&TEXT.as_bytes()[..*n])?,
+                Op::Str(n) => e.str(&TEXT[..*n])?,
+                Op::BeginArray => e.begin_array()?,
+                Op::BeginMap => e.begin_map()?,
+                Op::BeginBytes => e.begin_bytes()?,
+                Op::BeginStr => e.begin_str()?,
+                Op::End => e.end()?,
+                Op::Null => e.null()?,
+                Op::Undefined => e.undefined()?,
+                Op::Bool(b) => e.bool(*b)?,
+                Op::Simple(n) => e.simple(*n)?,
+                Op::F32(x) => e.f32(*x)?,
+                Op::F64(x) => e.f64(*x)?,
+                Op::Char(c) => e.char(*c)?,
+            };
+        }
+        Ok(())
+    }
+}
+
 /// io::Write that takes `chunk` bytes per call and fails exactly once, with a non-retryable error
 /// kind, when `at` bytes have been accepted; afterwards it accepts data again.
 struct FaultIo {
@@ -529,6 +621,23 @@ pub fn run(a: &Args, rep: &mut Report) {
         check_value("ArrayIter(inexact)", &minicbor::encode::ArrayIter::new(v.iter().filter(|_| true)), &show, rep, &mut rng, &rp);
         check_value("MapIter(exact)", &minicbor::encode::MapIter::new(v.iter().map(|x| (*x, x % 3 == 0))), &show, rep, &mut rng, &rp);
         check_value("MapIter(inexact)", &minicbor::encode::MapIter::new(v.iter().filter(|_| true).map(|x| (*x, x % 3 == 0))), &show, rep, &mut rng, &rp);
+    }
+    // single tokens (bare container / tag heads, breaks, indefinite starts included), token
+    // vectors, and scripts of direct Encoder method calls: whether a write fits depends on the
+    // bytes of that write alone, never on what the head announces
+    for i in 0..n {
+        if !a.mine(i) {
+            continue;
+        }
+        let mut rng = Rng::derive("c13/tokens", a.seed, 0, i);
+        let arena = crate::c01::Arena::new(&mut rng, 4);
+        let rp = vec!["c13".into(), "--seed".into(), a.seed.to_string(), "--replay".into(), "tokens".into(), i.to_string()];
+        let t = crate::c01::gen_token(&mut rng, &arena);
+        check_value("Token", &t, &format!("{:?}", t), rep, &mut rng, &rp);
+        let ts: Vec<minicbor::data::Token> = (0..rng.below(5)).map(|_| crate::c01::gen_token(&mut rng, &arena)).collect();
+        check_value("Vec<Token>", &ts, &format!("{:?}", ts), rep, &mut rng, &rp);
+        let sc = Script::gen(&mut rng);
+        check_value("Encoder method script", &sc, &format!("{:?}", sc.0), rep, &mut rng, &rp);
     }
     raw_sequences(a, rep);
     {
